@@ -78,6 +78,11 @@ def BOp.isCmp : BOp → Bool
   | .ne | .lt | .le | .eq | .ge | .gt => true
   | _ => false
 
+/-- the operators that have an `IDXAssociative*` form -/
+def BOp.isAssoc : BOp → Bool
+  | .plus | .star | .amp | .pipe | .hat | .and | .or => true
+  | _ => false
+
 def BOp.isLogic : BOp → Bool
   | .and | .or => true
   | _ => false
